@@ -520,9 +520,9 @@ example : (wtrace (3, some ['5', '\n']) [.setWidth 2, .op .call]).map (·.1) = [
 
 private theorem memRebase_nil (m : MemS) (o : Bool) : memRebase m o [] = m := by cases o <;> rfl
 
-private theorem memRebase_false (m : MemS) (rebase : List Nat) : memRebase m false rebase = m := rfl
+private theorem memRebase_false (m : MemS) (rebase : List Int) : memRebase m false rebase = m := rfl
 
-private theorem memRebase_width (m : MemS) (o : Bool) (rebase : List Nat) : (memRebase m o rebase).width = m.width := by
+private theorem memRebase_width (m : MemS) (o : Bool) (rebase : List Int) : (memRebase m o rebase).width = m.width := by
   cases o <;> cases rebase <;> simp [memRebase] <;> split <;> rfl
 
 /-- with nothing to re-base on, the run is the model -/
@@ -544,7 +544,7 @@ theorem C19_mem_switch_open_exact (m : MemS) (o : Bool) (ops : List MemOp) :
 /-- **whatever values are offered for re-basing: if the run declares no call open, it returns exactly the
     values of the model** (a history without `count` assignments in which the count fits every width it is
     switched to has no open call: the tie then compares the whole trace exactly) -/
-theorem C19_mem_switch_open_closed (m : MemS) (o : Bool) (rebase : List Nat) (ops : List MemOp)
+theorem C19_mem_switch_open_closed (m : MemS) (o : Bool) (rebase : List Int) (ops : List MemOp)
     (h : ∀ p ∈ memRunOpen m o rebase ops, p.2 = false) :
     (memRunOpen m o rebase ops).map (·.1) = callValues (memTrace m ops) := by
   induction ops generalizing m o rebase with
@@ -566,7 +566,7 @@ theorem C19_mem_switch_open_closed (m : MemS) (o : Bool) (rebase : List Nat) (op
 
 /-- every value of the comparison run is in range of the width in force, whatever is offered for re-basing
     (the value of the call at position `i` is the last output of the run of the first `i + 1` operations) -/
-theorem C19_mem_switch_open_range (m : MemS) (o : Bool) (rebase : List Nat) (ops : List MemOp) (i : Nat)
+theorem C19_mem_switch_open_range (m : MemS) (o : Bool) (rebase : List Int) (ops : List MemOp) (i : Nat)
     (h : ops[i]? = some .call) :
     ∃ p, (memRunOpen m o rebase (ops.take (i + 1))).getLast? = some p ∧ p.1 < 2 ^ widthAfter m.width (ops.take i) := by
   induction ops generalizing m o rebase i with
